@@ -32,6 +32,7 @@ pub fn profile() -> Profile {
     p.nonascii = 2;
     p.f64_vertex = false;
     p.ty.f64_ = false;
+    p.keyword_names = 1;
     p
 }
 
